@@ -27,12 +27,12 @@ import vlib
 AREA = "Rewrites"
 P = "Arc.Rewrites.Props"
 THEOREMS = [(P, n) for n in (
-    "C17_time_bucket_eq", "C17_time_bucket_origin_eq", "C17_date_trunc_eq", "C17_unrewritten_eq",
-    "C17_origin_class_refuted", "C17_week_refuted", "C17_date_trunc_week_refuted",
+    "C17_time_bucket_eq", "C17_time_bucket_origin_eq", "C17_date_trunc_eq", "C17_month_unrewritten", "C17_rounding_exact",
+    "C17_origin_class_refuted", "C17_week_refuted", "C17_date_trunc_week_refuted", "C17_origin_fraction_refuted",
     "C17_subsecond_refuted", "C17_pre_epoch_refuted", "C17_before_origin_refuted",
     "C17_url_canonical_replace_eq", "C17_url_canonical_extract_eq",
     "C17_url_nonmatching_refuted", "C17_url_pattern_refuted", "C17_url_empty_host_refuted",
-    "C17_like_no_or_sound", "C17_like_opt1_sound", "C17_like_or_refuted")]
+    "C17_like_no_or_sound", "C17_like_opt1_sound", "C17_like_or_refuted", "C17_like_quote_refuted")]
 MODULES = [P]
 TIE_NAME = ("C17 correspondence (api.rewriteTimeBucket/rewriteDateTrunc/RewriteRegexToStringFuncs/"
             "OptimizeLikePatterns + real DuckDB vs Arc.Rewrites.Model)")
@@ -72,14 +72,18 @@ def texpr_text(e):
     k = e["kind"]
     if k == "opaque":
         return e["text"]
+    col = e.get("col", "t")
     if k == "dt":
-        return "date_trunc('%s', t)" % e["unit"]
+        return "date_trunc('%s', %s)" % (e["unit"], col)
     lit = "%d %s%s" % (e["amount"], e["unit"], "s" if e.get("plural") else "")
     iv = ("INTERVAL '%s'" if e.get("kw", True) else "'%s'") % lit
     if k == "tb2":
-        return "time_bucket(%s, t)" % iv
+        return "time_bucket(%s, %s)" % (iv, col)
     o = fmt_ts(e["origin"], e.get("layout", "%Y-%m-%d %H:%M:%S"))
-    return "time_bucket(%s, t, %s'%s')" % (iv, "TIMESTAMP " if e.get("tskw", True) else "", o)
+    if e.get("frac"):                     # fractional second (layouts ending in seconds only)
+        fr = ("%06d" % e["frac"]).rstrip("0")
+        o = o[:-1] + "." + fr + "Z" if o.endswith("Z") else o + "." + fr
+    return "time_bucket(%s, %s, %s'%s')" % (iv, col, "TIMESTAMP " if e.get("tskw", True) else "", o)
 
 
 def texpr_coq(e):
@@ -90,11 +94,11 @@ def texpr_coq(e):
         return "(DT %s)" % UNIT_COQ[e["unit"]]
     if k == "tb2":
         return "(TB2 %s %s)" % (cz(e["amount"]), UNIT_COQ[e["unit"]])
-    return "(TB3 %s %s %s)" % (cz(e["amount"]), UNIT_COQ[e["unit"]], cz(e["origin"]))
+    return "(TB3 %s %s %s)" % (cz(e["amount"]), UNIT_COQ[e["unit"]], cz(e["origin"] * MICROS + e.get("frac", 0)))
 
 
-RE_E2 = re.compile(r"^to_timestamp\(\(epoch\(t\)::BIGINT // (-?\d+)\) \* (-?\d+)\)$")
-RE_E3 = re.compile(r"^to_timestamp\((-?\d+) \+ \(\(epoch\(t\)::BIGINT - (-?\d+)\) // (-?\d+)\) \* (-?\d+)\)$")
+RE_E2 = re.compile(r"^to_timestamp\(\(epoch\(t(?:::TIMESTAMP)?\)::BIGINT // (-?\d+)\) \* (-?\d+)\)$")
+RE_E3 = re.compile(r"^to_timestamp\((-?\d+) \+ \(\(epoch\(t(?:::TIMESTAMP)?\)::BIGINT - (-?\d+)\) // (-?\d+)\) \* (-?\d+)\)$")
 
 
 def parse_emitted(src, out):
@@ -135,6 +139,9 @@ def time_exprs(rng, tier):
                    "layout": layouts[i % 4], "plural": False})
     ex.append({"kind": "tb3", "amount": 30, "unit": "minute", "origin": 1704067200, "layout": "%Y-%m-%d"})
     ex.append({"kind": "tb3", "amount": 1, "unit": "month", "origin": 1704067200})
+    ex.append({"kind": "tb3", "amount": 1, "unit": "hour", "origin": 1704069000, "frac": 500000})     # witness: origin 00:30:00.5
+    ex.append({"kind": "tb3", "amount": 10, "unit": "second", "origin": 1704069000, "frac": 250000, "layout": "%Y-%m-%dT%H:%M:%SZ"})
+    ex.append({"kind": "tb3", "amount": 1, "unit": "day", "origin": -86400, "frac": 1})
     n_extra = 6 if tier == "quick" else 60
     for _ in range(n_extra):
         u = rng.choice(["second", "minute", "hour", "day", "week"])
@@ -151,7 +158,6 @@ def time_exprs(rng, tier):
         {"kind": "tb2", "amount": 2 ** 62, "unit": "minute"},                           # product wraps
         {"kind": "tb2", "amount": 2 ** 63 - 1, "unit": "week"},
         {"kind": "tb3", "amount": 1, "unit": "hour", "origin": 1704069000, "tskw": False},   # plain string origin
-        {"kind": "opaque", "text": "time_bucket(INTERVAL '1 hour', t, TIMESTAMP '2024-01-01 00:30:00.5')"},
         {"kind": "opaque", "text": "time_bucket(INTERVAL '1 hour', t, TIMESTAMP '2024-01-01 00:30')"},
         {"kind": "opaque", "text": "time_bucket(INTERVAL '1 hour', (t))"},
         {"kind": "opaque", "text": "time_bucket(INTERVAL '1 hour', coalesce(t, t), TIMESTAMP '2024-01-01')"},
@@ -162,15 +168,19 @@ def time_exprs(rng, tier):
     ]
     for e in emit_only:
         e["emit_only"] = True
+    for i, e in enumerate(ex):              # t is TIMESTAMPTZ (the production type of `time`); every third
+        if i % 3 == 1:                      # expression reads it as a plain TIMESTAMP
+            e["col"] = "t::TIMESTAMP"
     return ex + emit_only
 
 
 def time_rows(rng, tier, exprs):
     rows = list(WITNESS_T) + [None, 0, -1, 1, G * MICROS, G * MICROS - 1]
-    n = 380 if tier == "quick" else 6000
+    n = 200 if tier == "quick" else 3000
     widths = sorted({e["amount"] * UNIT_S[e["unit"]] for e in exprs if e["kind"] in ("tb2", "tb3") and UNIT_S[e["unit"]]
                      and e["amount"] < 10 ** 6} | {1, 60, 3600, 86400, 604800})
     bases = [0, G, 1704067200, 1704069000, 86400 * 365 * 200, -86400 * 365 * 100, 4 * 10 ** 9]
+    seen = set(rows)
     while len(rows) < n:
         r = rng.random()
         if r < 0.45:                       # around a bucket boundary of some width / origin
@@ -179,13 +189,16 @@ def time_rows(rng, tier, exprs):
             kb = rng.randrange(-50, 50) if rng.random() < 0.5 else rng.randrange(-10 ** 5, 10 ** 5)
             sec = base + kb * w + rng.choice([0, 0, -1, 1, w // 2])
             us = rng.choice([0, 0, 1, 499999, 500000, 500001, 999999, rng.randrange(MICROS)])
-            rows.append(sec * MICROS + us)
+            t = sec * MICROS + us
         elif r < 0.6:                      # pre-1970
-            rows.append(-rng.randrange(1, 86400 * 365 * 250) * MICROS + rng.choice([0, 1, 500000, 600000, rng.randrange(MICROS)]))
+            t = -rng.randrange(1, 86400 * 365 * 250) * MICROS + rng.choice([0, 1, 500000, 600000, rng.randrange(MICROS)])
         elif r < 0.7:                      # far future (DOUBLE exact below 2^53 us = year 2255)
-            rows.append(rng.randrange(2 * 10 ** 9, 9 * 10 ** 9) * MICROS + rng.randrange(MICROS))
+            t = rng.randrange(2 * 10 ** 9, 9 * 10 ** 9) * MICROS + rng.randrange(MICROS)
         else:
-            rows.append(rng.randrange(0, 2 * 10 ** 9) * MICROS + rng.choice([0, rng.randrange(MICROS)]))
+            t = rng.randrange(0, 2 * 10 ** 9) * MICROS + rng.choice([0, rng.randrange(MICROS)])
+        if abs(t) < 2 ** 53 and t not in seen:
+            seen.add(t)
+            rows.append(t)
     return rows
 
 
@@ -195,6 +208,8 @@ def time_class(e, t):
     k = e["kind"]
     unit = e["unit"]
     s = (e["amount"] if k != "dt" else 1) * UNIT_S[unit]
+    if k == "tb3" and e.get("frac"):
+        return "time-bucket-origin-fractional-second"
     if unit == "week" and k in ("tb2", "dt"):
         return "time-unit-week"
     if k == "tb2" and s and G % s != 0:
@@ -310,6 +325,9 @@ def url_patterns(rng, tier):
         ("extract", ("seq", [("bol",), ("alt", lit("https"), lit("ftp")), lit("://"), ("grp", 1, ("plus", NOSLASH))]), False, "alt"),
         # patterns that do NOT trigger the rewrite
         ("extract", ("seq", [("bol",), lit("http://"), ("grp", 1, ("plus", NOSLASH))]), False, "no-https"),
+        ("replace", ("seq", [("bol",), lit("http://"), ("grp", 1, ("plus", NOSLASH)), ("star", ("any",))]), False, "no-https"),
+        ("replace", ("seq", [("bol",), lit("HTTP://"), ("grp", 1, ("plus", NOSLASH)), ("star", ("any",))]), True, "no-https"),
+        ("extract", ("seq", [("bol",), lit("ftps://"), ("grp", 1, ("plus", NOSLASH))]), True, "no-https"),
         ("extract", ("seq", [("bol",), SCHEME, ("grp", 1, ("plus", ("set", False, [("a", "z"), (".", ".")])))]), False, "no-noslash"),
         ("replace", ("seq", [("bol",), SCHEME, ("grp", 1, ("plus", ("set", False, [("a", "z"), ("0", "9"), (".", ".")]))), ("star", ("any",))]), False, "no-noslash"),
     ]
@@ -390,12 +408,13 @@ def url_class(p, s):
 # ---------------------------------------------------------------------------------------
 COLS = ["a", "b", "c", "d", "likes"]
 TAILS = ["", " ORDER BY id", " LIMIT 1000", " GROUP BY id"]
-LIKE_PATS = ["x%", "%x%", "_", "%", "a_c", "%like%", "x", "%c"]
-LITS = ["", "x", "1", "dislike", "axc"]
+LIKE_PATS = ["x%", "%x%", "_", "%", "a_c", "%like%", "x", "%c", "x'%"]
+LITS = ["", "x", "1", "dislike", "axc", "o'k"]
+NE_LITS = ["'x", "'", "x", "'%", "x'", "''c", "like"]
 
 
 def gen_atom(rng, bias=None):
-    k = bias or rng.choice(["like", "like", "notlike", "nonempty", "nonempty", "eq", "isnull"])
+    k = bias or rng.choice(["like", "like", "notlike", "nonempty", "nonempty", "eq", "isnull", "ne"])
     c = rng.randrange(5)
     if k == "like":
         return ("like", c, rng.choice(LIKE_PATS))
@@ -405,6 +424,8 @@ def gen_atom(rng, bias=None):
         return ("nonempty", c)
     if k == "eq":
         return ("eq", c, rng.choice(LITS))
+    if k == "ne":
+        return ("ne", c, rng.choice(NE_LITS))
     return ("isnull", c)
 
 
@@ -434,8 +455,11 @@ def gen_clause(rng):
         ch = [gen_factor(rng) for _ in range(nf)]
         if ci == 0 and nf >= 2 and rng.random() < 0.5:        # opt1 trigger shape
             ch[0] = gen_factor(rng, rng.choice(["like", "notlike"]))
-            if rng.random() < 0.8:
+            r2 = rng.random()
+            if r2 < 0.7:
                 ch[1] = gen_factor(rng, "nonempty")
+            elif r2 < 0.85:
+                ch[1] = gen_factor(rng, "ne")
         if ci == nch - 1 and rng.random() < 0.75:             # opt2 trigger shape
             ch[-1] = gen_factor(rng, "nonempty")
         cl.append(ch)
@@ -445,7 +469,7 @@ def gen_clause(rng):
 def atom_text(a):
     c = COLS[a[1]]
     return {"like": lambda: "%s LIKE %s" % (c, sqlstr(a[2])), "notlike": lambda: "%s NOT LIKE %s" % (c, sqlstr(a[2])),
-            "nonempty": lambda: "%s <> ''" % c, "eq": lambda: "%s = %s" % (c, sqlstr(a[2])),
+            "nonempty": lambda: "%s <> ''" % c, "eq": lambda: "%s = %s" % (c, sqlstr(a[2])), "ne": lambda: "%s <> %s" % (c, sqlstr(a[2])),
             "isnull": lambda: "%s IS NULL" % c}[a[0]]()
 
 
@@ -472,7 +496,7 @@ def query_text(cl, tail):
 
 def atom_coq(a):
     return {"like": lambda: "(ALike %d %s)" % (a[1], cstr(a[2])), "notlike": lambda: "(ANotLike %d %s)" % (a[1], cstr(a[2])),
-            "nonempty": lambda: "(ANonEmpty %d)" % a[1], "eq": lambda: "(AEq %d %s)" % (a[1], cstr(a[2])),
+            "nonempty": lambda: "(ANonEmpty %d)" % a[1], "eq": lambda: "(AEq %d %s)" % (a[1], cstr(a[2])), "ne": lambda: "(ANe %d %s)" % (a[1], cstr(a[2])),
             "isnull": lambda: "(AIsNull %d)" % a[1]}[a[0]]()
 
 
@@ -492,10 +516,10 @@ def clause_coq(cl):
 
 
 def like_rows(rng, tier):
-    vals = [None, "", "x", "xx", "axc", "1", "like", "c"]
-    rows = [["x", "0", "", None, None]]                     # witness row of C17_like_or_refuted
+    vals = [None, "", "x", "xx", "axc", "1", "like", "c", "'x", "x'x", "p", "p'x"]
+    rows = [["x", "0", "", None, None], ["p", None, "z", None, None], ["p'x", None, "z", None, None]]   # witness rows of the two LIKE refutations
     n = 70 if tier == "quick" else 400
-    seen = {tuple(rows[0])}
+    seen = {tuple(r) for r in rows}
     while len(rows) < n:
         r = [rng.choice(vals) for _ in range(5)]
         if tuple(r) not in seen:
@@ -506,6 +530,18 @@ def like_rows(rng, tier):
 
 WITNESS_CLAUSE = [[{"negs": 0, "body": ("atom", ("like", 0, "x"))}],
                   [{"negs": 0, "body": ("atom", ("eq", 1, "1"))}, {"negs": 0, "body": ("atom", ("nonempty", 2))}]]
+WITNESS_QUOTE = [[{"negs": 0, "body": ("atom", ("like", 0, "p"))}, {"negs": 0, "body": ("atom", ("ne", 2, "'x"))}]]
+
+
+def quote_trigger(cl):
+    # the clause text starts with  col [NOT] LIKE 'p' AND col2 <> <literal starting with a quote>
+    ch = cl[0]
+    if len(ch) < 2:
+        return False
+    f1, f2 = ch[0], ch[1]
+    if f1["negs"] or f1["body"][0] != "atom" or f1["body"][1][0] not in ("like", "notlike") or "'" in f1["body"][1][2] or not f1["body"][1][2]:
+        return False
+    return (not f2["negs"]) and f2["body"][0] == "atom" and f2["body"][1][0] == "ne" and f2["body"][1][2].startswith("'")
 
 
 def like_nontrivial(cl):
@@ -525,8 +561,8 @@ def insert_steps(table, cols, rows_sql):
 
 
 def table_steps(plan):
-    st = insert_steps("tr", "id BIGINT, t TIMESTAMP",
-                      ["(%d, %s)" % (i, "NULL" if t is None else "make_timestamp(%d)" % t) for i, t in enumerate(plan["trows"])])
+    st = insert_steps("tr", "id BIGINT, t TIMESTAMPTZ",
+                      ["(%d, %s)" % (i, "NULL" if t is None else "make_timestamp(%d)::TIMESTAMPTZ" % t) for i, t in enumerate(plan["trows"])])
     st += insert_steps("ur", "id BIGINT, u VARCHAR",
                        ["(%d, %s)" % (i, "NULL" if v is None else sqlstr(v)) for i, v in enumerate(plan["urows"])])
     st += insert_steps("r", "id BIGINT, a VARCHAR, b VARCHAR, c VARCHAR, d VARCHAR, likes VARCHAR",
@@ -541,7 +577,7 @@ def make_plan(rng, tier):
     urows = url_rows(rng, tier)
     lrows = like_rows(rng, tier)
     ncl = 260 if tier == "quick" else 3000
-    clauses = [(WITNESS_CLAUSE, t) for t in range(4)] + [(gen_clause(rng), rng.randrange(4)) for _ in range(ncl)]
+    clauses = [(WITNESS_CLAUSE, t) for t in range(4)] + [(WITNESS_QUOTE, t) for t in range(2)] + [(gen_clause(rng), rng.randrange(4)) for _ in range(ncl)]
     items = []
     for e in texprs:
         items.append({"kind": "time", "expr": e, "src": texpr_text(e), "fn": "tbdt", "emit_only": bool(e.get("emit_only"))})
@@ -561,13 +597,14 @@ def make_plan(rng, tier):
     secs = [0, 1, -1, 3600, -3600, 1704844800, -86400 * 365 * 100, 4 * 10 ** 9] + [rng.randrange(-10 ** 10, 10 ** 10) for _ in range(12)]
     prims.append({"p": "to_timestamp", "sql": "SELECT * FROM (VALUES %s) v(s, r)" % ", ".join("(%d, epoch_us(to_timestamp(%d)))" % (x, x) for x in secs)})
     prims.append({"p": "epoch", "sql": "SELECT id, epoch(t)::BIGINT FROM tr WHERE t IS NOT NULL ORDER BY id"})
+    prims.append({"p": "epoch", "sql": "SELECT id, epoch(t::TIMESTAMP)::BIGINT FROM tr WHERE t IS NOT NULL ORDER BY id"})
     for _ in range(10 if tier == "quick" else 60):
         w = rng.choice([1, 7, 60, 3600, 25200, 86400, 604800, rng.randrange(1, 10 ** 7)]) * rng.choice([1, 1, MICROS, MICROS, 1000])
         o = rng.choice([G * MICROS, 0, 1704069000 * MICROS, rng.randrange(-10 ** 15, 4 * 10 ** 15)])
         prims.append({"p": "bucket", "w": w, "o": o,
-                      "sql": "SELECT id, epoch_us(time_bucket(to_microseconds(%d), t, make_timestamp(%d))) FROM tr WHERE t IS NOT NULL ORDER BY id" % (w, o)})
+                      "sql": "SELECT id, epoch_us(time_bucket(to_microseconds(%d), t::TIMESTAMP, make_timestamp(%d))) FROM tr WHERE t IS NOT NULL ORDER BY id" % (w, o)})
     for u in ["second", "minute", "hour", "day", "week"]:
-        prims.append({"p": "trunc", "u": u, "sql": "SELECT id, epoch_us(date_trunc('%s', t)) FROM tr WHERE t IS NOT NULL ORDER BY id" % u})
+        prims.append({"p": "trunc", "u": u, "sql": "SELECT id, epoch_us(date_trunc('%s', %s)) FROM tr WHERE t IS NOT NULL ORDER BY id" % (u, rng.choice(["t", "t::TIMESTAMP"]))})
     return {"trows": trows, "urows": urows, "lrows": lrows, "items": items, "prims": prims}
 
 
@@ -765,9 +802,10 @@ def evaluate(plan, name):
                 pterms.append("PBucketRows %s %s [%s]" % (hz(pq["w"]), hz(pq["o"]), ";".join(hz(t - int(x[1])) for x, t in zip(rows, nn))))
             else:
                 pterms.append("PTruncRows %s [%s]" % (UNIT_COQ[pq["u"]], ";".join(hz(t - int(x[1])) for x, t in zip(rows, nn))))
-    body = chunked("trows", "option Z", [copt(t, hz) for t in trows])
-    body += chunked("pcases", "pcase", pterms, 20)
+    trows_def = chunked("trows", "option Z", [copt(t, hz) for t in trows])
+    body = trows_def + chunked("pcases", "pcase", pterms, 20)
     body += "Definition p_dis := Eval vm_compute in vidx (pcase_agrees trows) 0%N pcases.\nPrint p_dis.\n"
+    jobs = [(name + "_prim", body, ["p_dis"], 0)]
     # ---- time
     tit = [it for it in items if it["kind"] == "time"]
     tterms = []
@@ -776,11 +814,13 @@ def evaluate(plan, name):
         obs = it.get("obs") or []
         tterms.append("{|tc_expr:=%s;tc_emit:=%s;tc_obs:=[%s]|}" % (
             texpr_coq(it["expr"]), it["emitted"], ";".join(tobs_coq(t, a, b) for t, (a, b) in zip(trows, obs))))
-    body += chunked("tcases", "tcase", tterms, 4)
-    body += "Definition t_emit := Eval vm_compute in vidx tcase_emit_agrees 0%N tcases.\nPrint t_emit.\n"
-    body += "Definition t_dis := Eval vm_compute in vflat (fun c => match tc_obs c with [] => [] | _ => tcase_disagree trows c end) 0%N tcases.\nPrint t_dis.\n"
-    body += "Definition t_orf := Eval vm_compute in vflat (fun c => match tc_obs c with [] => [] | _ => tcase_oraclefail trows c end) 0%N tcases.\nPrint t_orf.\n"
-    r.update(coq_eval_lists(name + "_time", body, ["p_dis", "t_emit", "t_dis", "t_orf"]))
+    TCH = 16
+    for off in range(0, len(tterms), TCH):
+        body = trows_def + chunked("tcases", "tcase", tterms[off:off + TCH], 4)
+        body += "Definition t_emit := Eval vm_compute in vidx tcase_emit_agrees 0%N tcases.\nPrint t_emit.\n"
+        body += "Definition t_dis := Eval vm_compute in vflat (fun c => match tc_obs c with [] => [] | _ => tcase_disagree trows c end) 0%N tcases.\nPrint t_dis.\n"
+        body += "Definition t_orf := Eval vm_compute in vflat (fun c => match tc_obs c with [] => [] | _ => tcase_oraclefail trows c end) 0%N tcases.\nPrint t_orf.\n"
+        jobs.append((name + "_time_%d" % off, body, ["t_emit", "t_dis", "t_orf"], off))
     r["pterms"], r["tit"] = pterms, tit
     # ---- url
     uit = [it for it in items if it["kind"] == "url"]
@@ -799,7 +839,7 @@ def evaluate(plan, name):
     body += "Definition u_emit := Eval vm_compute in vidx ucase_emit_agrees 0%N ucases.\nPrint u_emit.\n"
     body += "Definition u_dis := Eval vm_compute in vflat (fun c => match uc_obs c with [] => [] | _ => ucase_disagree urows c end) 0%N ucases.\nPrint u_dis.\n"
     body += "Definition u_orf := Eval vm_compute in vflat (fun c => match uc_obs c with [] => [] | _ => ucase_oraclefail urows c end) 0%N ucases.\nPrint u_orf.\n"
-    r.update(coq_eval_lists(name + "_url", body, ["u_emit", "u_dis", "u_orf"]))
+    jobs.append((name + "_url", body, ["u_emit", "u_dis", "u_orf"], 0))
     r["uit"] = uit
     # ---- like
     lit_ = [it for it in items if it["kind"] == "like"]
@@ -817,13 +857,25 @@ def evaluate(plan, name):
             ";".join("%d%%N" % i for i in ids1), ";".join("%d%%N" % i for i in ids2)))
     l_dis, l_orf = [], []
     rows_def = chunked("lrows", "row", ["[" + ";".join(copt(v, cstr) for v in rw) + "]" for rw in lrows])
-    for off in range(0, len(lterms), 1000):
-        body = rows_def + chunked("lcases", "lcase", lterms[off:off + 1000], 10)
+    for off in range(0, len(lterms), 150):
+        body = rows_def + chunked("lcases", "lcase", lterms[off:off + 150], 10)
         body += "Definition l_dis := Eval vm_compute in vidx (lcase_agrees lrows) 0%N lcases.\nPrint l_dis.\n"
         body += "Definition l_orf := Eval vm_compute in vidx lcase_oracle 0%N lcases.\nPrint l_orf.\n"
-        rr = coq_eval_lists(name + "_like_%d" % off, body, ["l_dis", "l_orf"])
-        l_dis += [off + x for x in rr["l_dis"]]
-        l_orf += [off + x for x in rr["l_orf"]]
+        jobs.append((name + "_like_%d" % off, body, ["l_dis", "l_orf"], off))
+    from concurrent.futures import ThreadPoolExecutor
+    with ThreadPoolExecutor(max_workers=8) as ex:
+        results = list(ex.map(lambda j: coq_eval_lists(j[0], j[1], j[2]), jobs))
+    r.update({"t_emit": [], "t_dis": [], "t_orf": []})
+    for (jn, _, labels, off), rr in zip(jobs, results):
+        if "_like_" in jn:
+            l_dis += [off + x for x in rr["l_dis"]]
+            l_orf += [off + x for x in rr["l_orf"]]
+        elif "_time_" in jn:
+            r["t_emit"] += [off + x for x in rr["t_emit"]]
+            r["t_dis"] += [off * 1000000 + x for x in rr["t_dis"]]
+            r["t_orf"] += [off * 1000000 + x for x in rr["t_orf"]]
+        else:
+            r.update(rr)
     r["l_dis"], r["l_orf"], r["lit"] = l_dis, l_orf, lit_
     return r
 
@@ -842,7 +894,7 @@ def run(res, tier, seed):
     failed = vlib.std_proof_stage(res, "C17", AREA, MODULES, THEOREMS)
     res.cov["trusted_base"] += [
         "DuckDB (v1.5.5 via internal/database) is the semantic oracle: the Gallina definitions epoch_bigint (round half to even), idiv (truncation), to_timestamp, time_bucket (origin 2000-01-03), date_trunc (ISO week), like, substr/split_part, the backtracking regex matcher and Kleene AND/OR/NOT are validated against it on every run, not proved about it",
-        "epoch() is a DOUBLE: modelled exactly, valid for |t| < 2^53 microseconds (year < 2255); session TimeZone is UTC; columns are TIMESTAMP (not TIMESTAMPTZ/DATE); strings are ASCII",
+        "epoch() is a DOUBLE: modelled exactly, valid for |t| < 2^53 microseconds (year < 2255); session TimeZone is UTC; the column is TIMESTAMP WITH TIME ZONE (production type of `time`: arrow timestamp[us, UTC]) and, for every third expression, cast to plain TIMESTAMP (not DATE); strings are ASCII",
         "pattern text <-> regex AST and clause <-> WHERE text are produced by the generator's printers (tools/props/C17.py); the WHERE printer is re-checked against the Gallina printer inside Coq for every case, the regex printer is checked through DuckDB's answers",
         "the regexps that find time_bucket/date_trunc/regexp_*/WHERE inside a full statement are exercised on expression-sized texts only (argument capture and string-literal blindness belong to C15/C16)",
     ]
@@ -912,7 +964,7 @@ def report(res, plan, ev, failed):
     ldis = set(ev["l_dis"])
     for i in ev["l_orf"]:
         it = lit_[i]
-        sig = "like-or" if len(it["clause"]) >= 2 else None
+        sig = "like-literal-starting-with-quote" if quote_trigger(it["clause"]) else ("like-or" if len(it["clause"]) >= 2 else None)
         o1, o2 = it["obs"]
         w = {"kind": "like", "sql": it["src"], "rewritten": it["out"], "rows_original": o1, "rows_rewritten": o2,
              "first_differing_row": next((dict(zip(COLS, lrows[k])) for k in sorted(set(o1 or []) ^ set(o2 or [])) if k < len(lrows)), None)}
@@ -938,8 +990,7 @@ def report(res, plan, ev, failed):
         {"like": lit_[5]["src"], "emitted": lit_[5]["out"], "rows_original": lit_[5]["obs"][0], "rows_rewritten": lit_[5]["obs"][1]},
     ]
     for sig, hits in sorted(known_hit.items()):
-        res.known_finding("%s [%s] (%d rows this run, each predicted by the model; e.g. %s)" % (
-            known[sig]["what"], sig, len(hits), json.dumps(hits[0], sort_keys=True)[:260]))
+        res.known_finding("[%s] %s (%d differing rows this run, each value predicted by the model)" % (sig, known[sig]["what"], len(hits)))
 
     # ---- violations
     if unexplained:
@@ -1007,7 +1058,7 @@ def replay(res, path):
     c = obj.get("case") or {}
     if "t_us" in c:
         steps = [{"op": "rewrite", "fn": "tbdt", "sql": c["expr"]},
-                 {"op": "query", "sql": "SELECT epoch_us(<E 0>), epoch_us(<R 0>) FROM (SELECT make_timestamp(%d) AS t)" % c["t_us"]}]
+                 {"op": "query", "sql": "SELECT epoch_us(<E 0>), epoch_us(<R 0>) FROM (SELECT make_timestamp(%d)::TIMESTAMPTZ AS t)" % c["t_us"]}]
     elif "string" in c:
         steps = [{"op": "rewrite", "fn": "regex", "sql": c["expr"]},
                  {"op": "query", "sql": "SELECT <E 0>, <R 0> FROM (SELECT %s AS u)" % sqlstr(c["string"])}]
